@@ -96,7 +96,9 @@ PROPS = {
     "C08": dict(suites=["core_heap", "rel_heap", "core_plain", "set_heap", "core_zst"], mc=["Small"]),
     "C09": dict(suites=["core_heap", "rel_heap", "core_plain", "set_heap", "set_zst"], mc=["Small"]),
     "C10": dict(suites=["limits_dbg", "limits_rel", "core_plain", "rel_plain", "set_heap", "defects"], mc=["CountR8"]),
-    "C11": dict(suites=["two_heap", "two_plain_rel", "set_two", "defects"], mc=[]),
+    # the two-slot suites exist to exercise clone / clone_from followed by divergent histories: there,
+    # any failed monitor (a lookup missing in the clone, an effect seen through the other map, ...) is C11's
+    "C11": dict(suites=["two_heap", "two_plain_rel", "set_two", "defects"], mc=[], any_monitor=True),
     "C12": dict(suites=["core_heap", "rel_heap", "core_plain", "core_zst", "defects"], mc=["Small"]),
     "C13": dict(suites=["set_heap", "set_two", "set_zst"], mc=["Small"]),
     "C14": dict(suites=["meta_heap", "meta_plain", "meta_set", "meta_zst"], mc=[],
